@@ -30,7 +30,7 @@ import ast
 from typing import List, Optional
 
 from ..cfg import cfg_of, origins
-from ..index import AnalysisError, arg_of, calls_in, const, enclosing_class, enclosing_function, kwarg, last_attr, norm, walk_local
+from ..index import AnalysisError, arg_of, calls_in, const, enclosing_class, enclosing_function, kwarg, last_attr, norm, short, walk_local
 from ..iohelpers import COMMON, LINTED_FILE, LINTER, RUNNER, Writer, all_calls, fq, is_self_attr, map_args, param_of, qual, returns_of
 
 OK_READ = ("strict", "surrogateescape")
@@ -74,6 +74,47 @@ def run(chk) -> None:
     _r11b(chk, repo, W)
     _r11c(chk, repo, W, L)
     _r11d(chk, repo, W, L)
+    chk.rule("R11e", "encoding autodetection looks at the whole file: the bytes it judges come from an unbounded read() of the file named by its parameter")
+    _r11e(chk, repo)
+
+
+def _r11e(chk, repo) -> None:
+    """The detected encoding decides how EVERY byte of the file is decoded (with a lossy error
+    handler, see R11a): a verdict reached on a prefix ('ascii' for an ASCII head) silently
+    rewrites later non-ASCII bytes as escape text once any fix is applied."""
+    G = repo.fn("src/sqlfluff/core/helpers/file.py", "get_encoding")
+    cfg = cfg_of(G)
+    n = 0
+    for w in walk_local(G):
+        if not isinstance(w, ast.With):
+            continue
+        for it in w.items:
+            c = it.context_expr
+            if not (isinstance(c, ast.Call) and fq(c) == "open" and c.args and param_of(cfg, c.args[0], w) is not None and isinstance(it.optional_vars, ast.Name)):
+                continue
+            handle = it.optional_vars.id
+            for r in calls_in(w):
+                if not (isinstance(r.func, ast.Attribute) and r.func.attr in ("read", "read1", "readline", "peek") and isinstance(r.func.value, ast.Name) and r.func.value.id == handle):
+                    continue
+                n += 1
+                size = r.args[0] if r.args else kwarg(r, "size")
+                unbounded = r.func.attr == "read" and (size is None or (isinstance(size, ast.Constant) and size.value in (None, -1)))
+                in_loop = any(isinstance(p, (ast.While, ast.For)) for p in _ancestors_until(r, G))
+                chk.require(
+                    unbounded or in_loop, "R11e", r,
+                    f"get_encoding judges the encoding from `{short(r, 50)}` -- a bounded prefix of the file: content after it is decoded with an "
+                    "encoding it was never checked against, and written back that way by any fix",
+                    detail="autodetect reads the whole file",
+                )
+    chk.count("R11e.detector_reads", n)
+    chk.floor("R11e.detector_reads", 1)
+
+
+def _ancestors_until(node, stop):
+    p = getattr(node, "_parent", None)
+    while p is not None and p is not stop:
+        yield p
+        p = getattr(p, "_parent", None)
 
 
 # ---------------------------------------------------------------------------
@@ -443,6 +484,18 @@ def _is_render_result(repo, rm, g, cfg, e, p, at, kind, render_file_names) -> bo
 from ..selftest import Variant  # noqa: E402
 
 VARIANTS = [
+    Variant(
+        "autodetect-sniffs-head-only", "src/sqlfluff/core/helpers/file.py",
+        "        data = f.read()\n",
+        "        data = f.read(8192)\n",
+        "R11e", "get_encoding", "seeded C11-2: ASCII head, UTF-8 tail -> tail rewritten as backslash escapes",
+    ),
+    Variant(
+        "quiet-autodetect-chunked-read", "src/sqlfluff/core/helpers/file.py",
+        "        data = f.read()\n",
+        "        data = b\"\"\n        while True:\n            chunk = f.read(65536)\n            if not chunk:\n                break\n            data += chunk\n",
+        "QUIET", None, "whole file read in chunks",
+    ),
     Variant("reader-ignores-undecodable", LINTER, 'errors="backslashreplace"', 'errors="ignore"', "R11a", "load_raw_file_and_config", "a different lossy handler (distinct finding key)"),
     Variant("writer-replaces-unencodable", LINTED_FILE, "                delete=False,\n", '                delete=False,\n                errors="replace",\n', "R11a", "_safe_create_replace_file"),
     Variant("reader-surrogateescape-unpaired", LINTER, 'errors="backslashreplace"', 'errors="surrogateescape"', "R11a", "_safe_create_replace_file", "reader fixed without pairing the writer"),
